@@ -37,8 +37,8 @@ fn check_card(o: &Oracle, rep: &Report, s: &str) {
     let e = token_word(o, s);
     let ev = json!({"op":"parse_card","s":cps(s)});
     let got = observe(&ev);
-    if got["res"] != hilo(e) {
-        viol(rep, ev, json!({"res": hilo(e)}), "a token parses to a card exactly when it starts with a rank symbol then a suit symbol");
+    if got["ok"] != json!(true) || got["res"] != hilo(e) {
+        viol(rep, ev, json!({"ok": true, "res": hilo(e)}), "a token parses to a card exactly when it starts with a rank symbol then a suit symbol");
     }
     rep.eval(1);
 }
@@ -48,19 +48,19 @@ fn check_hand(o: &Oracle, rep: &Report, n: usize, s: &str) {
     let ev = json!({"op":"parse_hand","n":n,"s":cps(s)});
     let got = observe(&ev);
     if toks.len() < n {
-        if got["res"] != json!("InvalidIndex") || (n == 5 && got["free"] != json!("None")) {
-            viol(rep, ev, json!({"res": "InvalidIndex"}), "parsing a hand does not fail when the text has fewer tokens than the hand has slots");
+        if got["kind"] != json!("InvalidIndex") || (n == 5 && got["free_kind"] != json!("None")) {
+            viol(rep, ev, json!({"kind": "InvalidIndex"}), "parsing a hand does not fail when the text has fewer tokens than the hand has slots");
         }
     } else if toks.len() == n {
         let e: Vec<u32> = toks.iter().map(|t| token_word(o, t)).collect();
-        if got["res"] != hilo_arr(&e) || (n == 5 && got["free"] != hilo_arr(&e)) {
-            viol(rep, ev, json!({"res": hilo_arr(&e)}), "parsing a hand does not fill the slots in token order");
+        if got["kind"] != json!("ok") || got["res"] != hilo_arr(&e) || (n == 5 && got["free"] != hilo_arr(&e)) {
+            viol(rep, ev, json!({"kind": "ok", "res": hilo_arr(&e)}), "parsing a hand does not fill the slots in token order");
         }
     } else {
         // more tokens than slots: the statement is silent; the code takes the first n (advisory)
         let e: Vec<u32> = toks.iter().take(n).map(|t| token_word(o, t)).collect();
-        if got["res"] == json!("panic") {
-            viol(rep, ev, json!({"res": hilo_arr(&e)}), "parsing unwound");
+        if got["kind"] == json!("panic") {
+            viol(rep, ev, json!({"kind": "ok"}), "parsing unwound");
         } else if got["res"] != hilo_arr(&e) {
             advise(rep, ev, json!({"res": hilo_arr(&e)}), "extra tokens are no longer ignored");
         }
@@ -182,8 +182,9 @@ pub fn c12(o: &Oracle, thorough: bool, seed: u64, rep: &Report) {
             a | o.word_to_card.get(&w).map(|&i| 1u64 << o.cards[i].bit).unwrap_or(0)
         });
         let ev = json!({"op":"parse_set","s":cps(&s)});
-        if observe(&ev)["res"] != limbs(e) {
-            viol(rep, ev, json!({"res": limbs(e)}), "set parsed from text is not exactly the distinct real cards among its tokens");
+        let got = observe(&ev);
+        if got["ok"] != json!(true) || got["res"] != limbs(e) {
+            viol(rep, ev, json!({"ok": true, "res": limbs(e)}), "set parsed from text is not exactly the distinct real cards among its tokens");
         }
         rep.eval(1);
     }
